@@ -40,7 +40,9 @@ func (eval Evaluator) ApplyEvaluationKey(ctIn *Ciphertext, evk *EvaluationKey, o
 		return fmt.Errorf("cannot ApplyEvaluationKey: input and output Ciphertext must be of degree 1")
 	}
 
-	level := utils.Min(ctIn.Level(), opOut.Level())
+	// The gadget product only fills the moduli the key has: a key below the operands' level
+	// brings the operation (and the result) down to its own level.
+	level := utils.Min(utils.Min(ctIn.Level(), opOut.Level()), evk.LevelQ())
 	ringQ := eval.params.RingQ().AtLevel(level)
 
 	// The result lives at the common level: a receiver allocated at a higher level must not keep
@@ -73,8 +75,6 @@ func (eval Evaluator) ApplyEvaluationKey(ctIn *Ciphertext, evk *EvaluationKey, o
 		if NIn != ringQ.N() {
 			return fmt.Errorf("cannot ApplyEvaluationKey: ctIn ring degree does not match evaluator params ring degree")
 		}
-
-		level := utils.Min(ctIn.Level(), opOut.Level())
 
 		ctTmp, err := NewCiphertextAtLevelFromPoly(level, eval.BuffCt.Value)
 
@@ -137,7 +137,8 @@ func (eval Evaluator) Relinearize(ctIn *Ciphertext, opOut *Ciphertext) (err erro
 		return fmt.Errorf("cannot relinearize: %w", err)
 	}
 
-	level := utils.Min(ctIn.Level(), opOut.Level())
+	// A key below the operands' level brings the operation down to its own level (see ApplyEvaluationKey).
+	level := utils.Min(utils.Min(ctIn.Level(), opOut.Level()), rlk.LevelQ())
 
 	ringQ := eval.params.RingQ().AtLevel(level)
 
